@@ -8,6 +8,7 @@ import (
 	"net"
 	"os"
 	"syscall"
+	"time"
 
 	"github.com/free5gc/go-upf/internal/verif/evid"
 )
@@ -57,7 +58,17 @@ type Sock struct {
 }
 
 func Listen(ip net.IP, port int) *Sock {
-	c, err := net.ListenUDP("udp4", &net.UDPAddr{IP: ip, Port: port})
+	var c *net.UDPConn
+	var err error
+	// another process of this sandbox may transiently hold the wildcard address of the port (e.g. a test
+	// of the repository binding 0.0.0.0:2152): wait for it rather than failing at once
+	for try := 0; try < 90; try++ {
+		c, err = net.ListenUDP("udp4", &net.UDPAddr{IP: ip, Port: port})
+		if err == nil {
+			break
+		}
+		time.Sleep(time.Second)
+	}
 	if err != nil {
 		evid.Infra("bind %v:%d: %v", ip, port, err)
 	}
